@@ -31,6 +31,8 @@ CLAIMED['C15'] = ("Bounded symbolic model checking of the microtask scheduler an
          "Trusted: go/ssa, symgo (SC atomics, G1 yield-only scheduling), z3. Max-delay expiry, larger thresholds and finer interleavings are outside the claim.")
 CLAIMED['C05'] = ("Bounded symbolic model checking of the stop protocol: the completion decision as a lemma over fully symbolic flags and counters, worker accounting (count, decrement, completion check order), and the real stop sequence run with the engine's goroutine scheduler for a module with up to 2 running work items and a stop routine returning or panicking at an arbitrary point, exploring every scheduling choice at blocking points; a lost completion appears as a deadlock and is reported as a violation.",
          "Trusted: go/ssa, symgo (SC atomics/locks, G1 scheduling), z3. More than 2 items, tasks/event hooks as running items, real timeouts and finer preemption are outside the claim.")
+CLAIMED['C06'] = ("Bounded symbolic model checking of the recover paths of managed executions (RunWorker/StartWorker, service worker with restart, microtask, task body, prep/start/stop routines through the real passes, a panicking worker among healthy ones) for five kinds of panic value: no panic escapes any goroutine (an escaping panic is the event 'process terminated'), the error identifies as a panic with value and stack trace, it reaches the reporting channel, counters are restored, the service worker restarts, the task can run again and the module can be stopped.",
+         "Trusted: go/ssa, symgo (defer/recover semantics per Go spec, G1 scheduling, virtual timers), z3. API request handlers and event hooks are outside the claim.")
 NA = {}
 def check(pid):
     text, note = CLAIMED[pid]
